@@ -154,7 +154,9 @@ def config_dict(config, form="iso", rename=None, stale=None):
             sid = (rename or {}).get(e["stream"], e["stream"])
             mod = FN2MOD.get(e["fn"], "qartod")
             kw = entry_kwargs(e)
-            if stale is not None:
+            if e["fn"] in ("nomod", "notest") and (len(ctxs) + len(d["streams"])) % 2 == 1:
+                kw = None                   # an unknown name written without parameters ("not_a_test:" in YAML)
+            elif stale is not None:
                 kw.update(stale_inputs(stale))
             d["streams"].setdefault(sid, {}).setdefault(mod, {})[FN2TEST[e["fn"]]] = kw
         ctxs.append(d)
